@@ -14,28 +14,28 @@ PIPE = "The full pipeline (both entry points, both wrappers, link loading, thres
 # property -> (claimed, level text, note, technique, design_ref)
 P = {
  "C17": (True,
-  "Lean theorems over a byte-level mirror of match.go (model) and the documented grammar (spec): unbounded proof for all ASCII patterns and names that Filter membership = well-formed pattern matching the whole name; decide-checked UTF-8 witnesses. The model AND the spec are run beside the real Set.Filter on every pattern up to length L x every name up to length M over the metacharacter alphabet (exhaustive) plus random UTF-8 pairs, so a code change that alters matching disagrees with the proved model on a concrete pattern/name.",
-  COMMON_NOTE + "Multi-byte UTF-8 handling of the byte-level algorithm is modelled and exercised by the tie; the unbounded theorem is for ASCII. Invalid UTF-8 is outside the domain.",
+  "Lean theorems over a byte-level mirror of match.go (model) and the documented grammar (spec): unbounded proof for ALL valid UTF-8 patterns and names (correct_for_all_utf8; the ASCII theorem is the special case) that Filter membership = the pattern, read as code points, is well-formed and matches the whole name read as code points; malformed pattern matches nothing; `?` = exactly one code point. The model AND the spec are run beside the real Set.Filter on every pattern up to length L x every name up to length M over the metacharacter alphabet (exhaustive), on grammar-directed patterns (classes with escaped / in-class-literal metacharacters, ranges, malformed ones) plus random UTF-8 pairs, so a code change that alters matching disagrees with the proved model on a concrete pattern/name.",
+  COMMON_NOTE + "Invalid UTF-8 in pattern or name is outside the theorem's domain (the model mirrors Go's behaviour on it and the tie does not generate it).",
   "Lean 4 proof (model = grammar spec) + exhaustive/random differential correspondence model vs Set.Filter",
   "DESIGN.md §5 C17"),
  "C03": (True,
-  "Lean theorems: the modelled rule interpreter (mirror of UnpackRule / verifyMatchRule / VerifyArtifacts incl. in-place clean-up) equals a pointwise declarative specification of the in-toto queue algorithm for every rule list, queue and link context with clean artifact names (interpreter_eq_spec), plus corollaries (exact consumption, order, DISALLOW/REQUIRE failure conditions, permutation invariance, MATCH prefix and hash requirements, rule grammar incl. case-insensitivity, malformed rule = error). The model is run beside the real VerifyArtifacts/UnpackRule on a small universe with EVERY rule list of length <= 2 over a 38-rule alphabet, on random larger instances (incl. unclean paths, nil maps) and on mutated token lists.",
+  "Lean theorems: the modelled rule interpreter (mirror of UnpackRule / verifyMatchRule / VerifyArtifacts incl. in-place clean-up) equals a pointwise declarative specification of the in-toto queue algorithm for every rule list, queue and link context with clean artifact names (interpreter_eq_spec), plus corollaries (exact consumption, order, DISALLOW/REQUIRE failure conditions, permutation invariance, MATCH prefix and hash requirements, rule grammar incl. case-insensitivity, malformed rule = error), and at the level of VerifyArtifacts: an item is accepted iff it has a link, both rule lists parse and the spec accepts materials and products against the created/deleted/modified sets of its own link; all items iff each; item order irrelevant. The model is run beside the real VerifyArtifacts/UnpackRule on a small universe with EVERY rule list of length <= 2 over a 38-rule alphabet, on random larger instances (incl. unclean paths, nil maps) and on mutated token lists.",
   COMMON_NOTE + "reflect.DeepEqual on hash maps is modelled as equality of sorted association lists with nil kept distinct; artifact-name collisions after path cleaning (order-dependent in Go) are outside the model's domain.",
   "Lean 4 proof (interpreter = declarative queue spec) + exhaustive-small-universe/random differential correspondence model vs VerifyArtifacts",
   "DESIGN.md §5 C03"),
  "C11": (True,
-  "Lean model of cjson.EncodeCanonical (key sorting, the two escapes, integers only) and of the DSSE payload bytes, with a strict RFC 8259 parser in the model; theorems (in progress, see evidence for the list that is checked on this run): the payload parses back to exactly the value set, the canonical form is uniquely readable hence injective, non-integral numbers are refused. Every run compares the model's canonical bytes and payload bytes byte-for-byte with GetSignableRepresentation / SetPayload+Dump of the real library on generated links/layouts with odd strings, in three re-serialisations each, and checks that Go's own JSON decoder and LoadMetadata read the payload back.",
+  "Lean model of cjson.EncodeCanonical (key sorting, the two escapes, integers only) and of the DSSE payload bytes, with a strict RFC 8259 parser in the model; theorems: the payload parses back to exactly the value set, the canonical form is uniquely readable hence injective, the typed encoding is injective up to the omitempty normal form, hence two well-typed links/layouts with the same signed bytes are the same metadata (same_signed_bytes_same_link/_layout), non-integral numbers are refused. Every run compares the model's canonical bytes and payload bytes byte-for-byte with GetSignableRepresentation / SetPayload+Dump of the real library on generated links/layouts with odd strings, in three re-serialisations each, and checks that Go's own JSON decoder and LoadMetadata read the payload back.",
   COMMON_NOTE + "Numbers in by-products are modelled as exact integers or an opaque non-integral literal (float64 formatting is not modelled; generators stay below 2^53). Invalid UTF-8 is outside the domain.",
   "Lean 4 proof (parse∘render = id, injectivity) + byte-for-byte differential correspondence of signed bytes",
   "DESIGN.md §5 C11"),
  "C12": (True,
-  "Lean model of both loaders, of Dump and of encoding/json's struct decoding over the schema given as data (field names, omitempty, required fields, DisallowUnknownFields, null handling, case folding, duplicate keys); theorems checked on this run are listed in the evidence (schema-level round trip decode∘encode = id and refusal theorems are being proved). Every run loads generated valid files in both wrappers through LoadMetadata and Metablock.Load and every kind of single-point corruption (drop/rename/upper-case/duplicate/retype/nullify/extra key at every member/element, envelope and payload-type corruptions, truncations) through the real library and the model and compares outcome, canonical payload, signatures and three round trips.",
+  "Lean model of both loaders, of Dump and of encoding/json's struct decoding over the schema given as data (field names, omitempty, required fields, DisallowUnknownFields, null handling, case folding, duplicate keys); theorems: schema-level round trip decode∘encode = id (omitempty-normalised), refusal theorems (unknown field at any depth, wrong type, absent/null parts, unknown type, missing mandatory field), and the FILE-level round trip as one theorem per wrapper (file_roundtrip_metablock: LoadMetadata and Metablock.Load read back what Dump wrote; file_roundtrip_envelope / _set_payload for DSSE incl. base64 and UTF-8 transport). Every run loads generated valid files in both wrappers through LoadMetadata and Metablock.Load and every kind of single-point corruption (drop/rename/upper-case/duplicate/retype/nullify/extra key at every member/element, envelope and payload-type corruptions, truncations) through the real library and the model and compares outcome, canonical payload, signatures and three round trips.",
   COMMON_NOTE + "Byte-level JSON syntax of files is parsed by the model's own strict parser; Go's replacement of invalid UTF-8/lone surrogates and duplicated slice/struct members are outside the modelled domain.",
   "Lean 4 proof (schema-level decode/encode) + mutation-based differential correspondence of both loaders",
   "DESIGN.md §5 C12"),
  "C06": (True,
-  "Lean model of time.Parse for the one expiry layout (incl. what Go accepts beyond it: 1-digit hour, fractional seconds) and of VerifyLayoutExpiration; theorems: acceptance implies a parsed calendar stamp not in the past, unparseable or past stamps are rejected for every clock value; kernel-evaluated grammar table. Pipeline theorems (expiry consulted by both entry points before links are read / inspections run) are stated over the pipeline model. Every run compares parse and expiry verdicts of the real library (ValidateMetablock / VerifyLayoutExpiration against the clock) with the model on thousands of strings: whole calendar range, seconds..days around now, other layouts, single-character mutations.",
-  COMMON_NOTE + "The OS clock is read by the harness and handed to the model; stamps closer than 10 s to now are not generated.",
+  "Lean model of time.Parse for the one expiry layout (incl. what Go accepts beyond it: 1-digit hour, fractional seconds) and of VerifyLayoutExpiration; theorems: acceptance implies a parsed calendar stamp not in the past, unparseable or past stamps are rejected for every clock value; the parser accepts EXACTLY the declarative grammar YYYY-MM-DDTh[h]:mm:ss[(.|,)d+]Z with calendar ranges (parse_iff_grammar); consecutive calendar days have consecutive day numbers and earlier stamps smaller instants (so the comparison is about the calendar). Pipeline theorems (expiry consulted by both entry points before links are read / inspections run) are stated over the pipeline model. Every run compares parse and expiry verdicts of the real library (ValidateMetablock / VerifyLayoutExpiration against the clock) with the model on thousands of strings: whole calendar range, seconds..days around now, other layouts, single-character mutations; stamps written 1-2 s ahead of the clock are checked 3.2 s later in the same process.",
+  COMMON_NOTE + "The OS clock is read by the harness and handed to the model; stamps closer than 1 s to the moment of the check are not generated.",
   "Lean 4 proof (expiry decision) + differential correspondence on date strings and on the full pipeline",
   "DESIGN.md §5 C06"),
  "C18": (True,
@@ -44,28 +44,28 @@ P = {
   "Lean 4 proof (replacer = single-pass spec, field exactness) + differential correspondence on marker-laden layouts",
   "DESIGN.md §5 C18"),
  "C07": (True,
-  "Lean model of checkCertConstraint / CertificateConstraint.Check / Step.CheckCertConstraints over an x509 oracle (parsed attributes + chain verdict); theorems (see evidence for the list checked on this run): exact-set semantics of every attribute, order independence, subset and superset rejected, acceptance implies chain AND all five attributes against one and the same constraint, no constraints = reject, completeness under a wildcard root constraint, untrusted chain = reject. Every run mints real certificates with crypto/x509 in 11 chain shapes with generated attribute lists and 0-3 constraints in all forms and compares Check / CheckCertConstraints / VerifyCertificateTrust with the model fed with the stdlib-parsed attributes and the ground truth of how the chain was built (pools via LoadLayoutCertificates).",
+  "Lean model of checkCertConstraint / CertificateConstraint.Check / Step.CheckCertConstraints over an x509 oracle (parsed attributes + chain verdict); theorems (see evidence for the list checked on this run): exact-set semantics of every attribute, order independence, subset and superset rejected, acceptance implies chain AND all five attributes against one and the same constraint, no constraints = reject, completeness under a wildcard root constraint, untrusted chain = reject. Every run mints real certificates with crypto/x509 in 13 chain shapes (incl. foreign intermediates / roots supplied by the caller) with generated attribute lists and 0-3 constraints in all forms and compares Check / CheckCertConstraints / VerifyCertificateTrust with the model fed with the stdlib-parsed attributes and the ground truth of how the chain was built (pools via LoadLayoutCertificates).",
   COMMON_NOTE + "X.509 path validation itself is Go's crypto/x509 (oracle); its verdict is compared with the construction ground truth on every case.",
   "Lean 4 proof (constraint decision logic) + differential correspondence on minted certificate chains",
   "DESIGN.md §5 C07"),
  "C01": (True,
-  PIPE + "C01 scenarios: 1-2 signer keys from an RSA/ECDSA/Ed25519 pool, one alteration after signing in 4 of 5 cases (any string of the signed layout, drop/reorder/duplicate/corrupt signature, swapped key ids, foreign/wrong/empty verifier key set). Theorems: see evidence (signature check first and exact-content binding over symbolic signatures are being proved over the pipeline model).",
+  PIPE + "C01 scenarios: 1-2 signer keys from an RSA/ECDSA/Ed25519 pool, one alteration after signing in 4 of 5 cases (any string of the signed layout, drop/reorder/duplicate/corrupt signature, swapped key ids, foreign/wrong/empty verifier key set). Theorems: acceptance implies at least one key and every key verifies; a verifying key has a signature the primitive accepts over exactly the canonical bytes (legacy) resp. the PAE of the stored payload bytes from which the enforced layout was decoded (DSSE); any failing key means error before anything runs; key-map order irrelevant. 60% of the altered cases are verified after the authentic layout was verified in the same process.",
   COMMON_NOTE + "Unforgeability of RSA-PSS/ECDSA/Ed25519 is not proved (perfect-signature abstraction: a signature verifies iff it was made with that key over exactly those bytes; the harness makes all signatures itself with crypto/* over the bytes the MODEL says are signed).",
   "Lean 4 proof over pipeline model + differential correspondence on altered signed layouts",
   "DESIGN.md §5 C01"),
  "C02": (True,
-  PIPE + "C02 scenarios: per step threshold 0-3, 1-3 authorized keys, honest links plus tampered / unsigned / foreign / other-step key / forged key id / extra signatures / wrong names / garbage / undecodable or corrupted signatures / certificate-signed links with good, expired, foreign-root, missing-intermediate chains and forged first key id; mixed key/certificate steps are run 6x (18x thorough) to observe map-order dependence. Theorems: see evidence (counted = loaded ∧ authorized, distinct ids, order independence being proved).",
+  PIPE + "C02 scenarios: per step threshold 0-3, 1-3 authorized keys, honest links plus tampered / unsigned / foreign / other-step key / forged key id / extra signatures / wrong names / garbage / undecodable or corrupted signatures / certificate-signed links with good, expired, foreign-root, missing-intermediate chains and forged first key id; mixed key/certificate steps are run 6x (18x thorough) to observe map-order dependence. Theorems: counted = loaded ∧ authorized (key route or certificate route), distinct ids, order independence, and at pipeline level: one level accepts IFF admitted ∧ counting stage ok ∧ sublayouts resolve ∧ last stage accepts (pipeline_is_conjunction_of_stages); acceptance implies every step has >= threshold counted, distinct, authorized links; enough counted links always suffice whatever else lies in the directory; one short step fails.",
   COMMON_NOTE + "X.509 path validation is an oracle (ground truth by construction).",
   "Lean 4 proof over pipeline model + differential correspondence on link populations (repeated runs)",
   "DESIGN.md §5 C02"),
  "C05": (True,
-  PIPE + "C05 scenarios: thresholds 1-3, counted links agree or one differs in one product path/digest/presence, uncounted links carry other artifacts. Theorems: see evidence (reduction = pairwise agreement, reference irrelevant).",
+  PIPE + "C05 scenarios: thresholds 1-3, counted links agree or one differs in one product path/digest/presence, uncounted links carry other artifacts. Theorems: reduction = pairwise agreement, reference irrelevant; at pipeline level acceptance implies agreement of the counted links of EVERY step, a disagreement in any step fails, the rule context holds exactly the agreed link per step, and the summary is the first step's agreed materials and the last step's agreed products.",
   COMMON_NOTE, "Lean 4 proof over pipeline model + differential correspondence incl. returned summary artifacts", "DESIGN.md §5 C05"),
  "C08": (True,
-  PIPE + "C08 scenarios: two- and three-level nestings with defects at any level. Theorems: see evidence (structural recursion over the link directory; failure propagation in preparation).",
+  PIPE + "C08 scenarios: two- and three-level nestings with defects at any level. Theorems (for every recursive procedure, hence the pipeline's own): success of VerifySublayouts implies every layout evidence was verified recursively with the functionary's key against <step>.<id prefix> and replaced by exactly the returned summary; an inner failure fails the parent and the stage's error is the inner error; only counted (authorized) evidence is followed; acceptance at one level implies acceptance of every counted sublayout one level down; the model's recursion bound is irrelevant above the directory depth.",
   COMMON_NOTE + "Symlinked sublayout directories are not modelled.", "Lean 4 proof over pipeline model + differential correspondence on nested link directories", "DESIGN.md §5 C08"),
  "C09": (True,
-  PIPE + "C09 scenarios: 0-3 inspections from a catalogue of real shell commands (no-op, create/modify/delete, exit 1..255, effect then exit, killed by signal, missing executable, empty argv), final product directory equal to the last step's products or with one file added/removed/modified, with and without run directory (incl. missing/empty). Theorems: see evidence (layout order, exit 0, all-or-prefix execution being proved).",
+  PIPE + "C09 scenarios: 0-3 inspections from a catalogue of real shell commands (no-op, create/modify/delete, exit 1..255, effect then exit, killed by signal, missing executable, empty argv), final product directory equal to the last step's products or with one file added/removed/modified, with and without run directory (incl. missing/empty). Theorems: layout order, exit 0, all-or-prefix execution; at pipeline level acceptance implies that exactly all inspections ran in order after what ran before/in sublayouts, each started and exit 0; the last stage accepts iff links agree, step rules hold, inspections pass and inspection rules hold over the links the inspections just recorded.",
   COMMON_NOTE + "What `sh` does for a catalogue command is assumed to be what the catalogue says (create/modify/delete/exit).", "Lean 4 proof over pipeline model + differential correspondence with real inspection commands", "DESIGN.md §5 C09"),
  "C04": (True,
   "Lean model of signing histories over symbolic signatures (Metablock.Sign, Envelope.Sign, SetPayload, VerifySignature, dump+load, mutation, corruption); theorems: sign-then-verify succeeds in both wrappers for every reachable state (under the stated no-stale-signature hypothesis), later signatures keep earlier verifications, verification succeeds only with a signature by that key's material over exactly the current signed bytes (hence fails after any content change and under any other key), the signed bytes are canonical JSON resp. the DSSE PAE. Every run replays ALL operation sequences up to length L plus random longer histories through the real library and the model, checks every signature the library emits with crypto/* over cjson/PAE bytes and offers crypto/*-made signatures to the library, across RSA-2048, P-224/256/384/521 and Ed25519.",
@@ -83,12 +83,12 @@ P = {
   "Lean 4 proof (permutation invariance per map, pure-function histories) + repeated-history differential correspondence",
   "DESIGN.md §5 C10"),
  "C13": (True,
-  "PARTIAL. Lean model of RecordArtifact(s): normalisation on bytes, lexical walk with exclusion oracle, file symlinks always / directory symlinks on request, prefix stripping, uniqueness, errors, match-products. Proved: normalisation laws (no CR, CRLF and CR to one LF, idempotent, identity without CR), per-node walk rules, error cases, panic-freedom, match-products = three-way difference. Every run materialises generated trees (depth <= 4, empty/binary/CR-LF contents, symlinks to files and directories, dangling links, several roots incl. unclean and missing ones), all algorithm subsets plus unknown names, both switches, exclude patterns, strip prefixes, and compares RecordArtifacts with the model fed with crypto/sha* digests; normalisation against the model's byte function; match-products; before/after discipline of run and record start/stop; symlink cycles (no crash/hang).",
-  COMMON_NOTE + "Correspondence only: completeness of the walk over all trees (no induction proof yet), go-pathspec pattern semantics (oracle), symlink cycles, permissions, Windows paths. One recorded finding (F19: prefix not stripped from symlink keys).",
+  "PARTIAL. Lean model of RecordArtifact(s): normalisation on bytes, lexical walk with exclusion oracle, file symlinks always / directory symlinks on request, prefix stripping, uniqueness, errors, match-products. Proved: normalisation laws (no CR, CRLF and CR to one LF, idempotent, identity without CR), per-node walk rules, error cases, panic-freedom, match-products = three-way difference, and walk EXACTNESS for trees without symbolic links: the result holds exactly one entry per regular file that is not excluded (declarative FileAt relation), under its path with the first matching strip prefix removed, nothing else, names pairwise distinct, an unhashable file fails the walk. Every run materialises generated trees (depth <= 4, empty/binary/CR-LF contents, symlinks to files and directories, dangling links, several roots incl. unclean and missing ones), all algorithm subsets plus unknown names, both switches, exclude patterns, strip prefixes, and compares RecordArtifacts with the model fed with crypto/sha* digests; normalisation against the model's byte function; match-products; before/after discipline of run and record start/stop; symlink cycles (no crash/hang).",
+  COMMON_NOTE + "Correspondence only: walk exactness in the presence of symlinks, go-pathspec pattern semantics (oracle), symlink cycles, permissions, Windows paths. One recorded finding (F19: prefix not stripped from symlink keys).",
   "Lean 4 proof (normalisation, walk rules, set algebra) + differential correspondence on materialised directory trees",
   "DESIGN.md §5 C13"),
  "C14": (True,
-  "PARTIAL. Lean transition system of a child writing to two bounded pipes and a parent draining them: proved for ALL volumes, capacities > 0 and schedules that concurrent draining is never stuck, every run is finite, a returned call holds exactly the bytes written; the sequential discipline of the original code deadlocks (kernel-checked witness). Every run executes real commands writing 0, 1, cap-1, cap, cap+1, 4*cap (thorough: 4 MiB) bytes to either stream in any order, ending with status 0..255 or SIGKILL, under a 20 s deadline and compares completion, byte counts and return value.",
+  "PARTIAL. Lean transition system of a child writing to two bounded pipes and a parent draining them: proved for ALL volumes, capacities > 0 and schedules that concurrent draining is never stuck, every run is finite, a returned call holds exactly the bytes written; the sequential discipline of the original code deadlocks (kernel-checked witness). Every run executes real commands writing 0, 1, cap-1, cap, cap+1, 4*cap (thorough: 4 MiB) bytes to either stream in any order, ending with status 0..255 or SIGKILL, under a 20 s deadline and compares completion, byte counts, the run-length encoded CONTENT of both streams (every chunk is written in its own letter; model: contentRuns, theorem content_accounts_for_every_byte) and return value.",
   COMMON_NOTE + "Not expressible: kernel pipe semantics, scheduler fairness, that os/exec implements the concurrent discipline (tie only).",
   "Lean 4 proof (deadlock freedom and completeness of the pipe system) + real commands under deadline",
   "DESIGN.md §5 C14"),
@@ -98,13 +98,13 @@ P = {
   "Lean 4 proof (commutation without shared writes) + regenerated source fact + race-detector stress search",
   "DESIGN.md §5 C16"),
  "C19": (True,
-  "PARTIAL. Lean model of key loading at the level of (key kind, PEM form, scheme request): proved: all forms of one pair load to the same type/scheme/id-algorithms (hence one identifier, as the preimage mentions the public half only), private half present exactly for private forms, certificate only for certificates, default schemes and accepted type/scheme pairs are the listed tables, non-keys are refused; constants tied to the source by regenerated facts. Every run loads freshly generated keys (RSA, ECDSA P-224..521, Ed25519) in every PEM form with decoration, from file and reader, default and explicit scheme, plus corrupted/truncated/encrypted/foreign input, and compares with the model, with crypto/x509 encodings of the public half, with SHA-256 of the MODEL's canonical id preimage, and signs/verifies across two forms of one pair incl. an independent crypto/* verification.",
+  "PARTIAL. Lean model of key loading at the level of (key kind, PEM form, scheme request): proved: all forms of one pair load to the same type/scheme/id-algorithms (hence one identifier, as the preimage mentions the public half only), private half present exactly for private forms, certificate only for certificates, default schemes and accepted type/scheme pairs are the listed tables, non-keys are refused; the identifier preimage is injective in key type, scheme, algorithm list and public half; constants tied to the source by regenerated facts. Loads also go into Key objects that already hold other material. Every run loads freshly generated keys (RSA, ECDSA P-224..521, Ed25519) in every PEM form with decoration, from file and reader, default and explicit scheme, plus corrupted/truncated/encrypted/foreign input, and compares with the model, with crypto/x509 encodings of the public half, with SHA-256 of the MODEL's canonical id preimage, and signs/verifies across two forms of one pair incl. an independent crypto/* verification.",
   COMMON_NOTE + "Correspondence only: PEM/DER parsing, key generation, SHA-256, SVID conversion (internal/spiffe is exercised by the repository's own tests only).",
   "Lean 4 proof (identity/type/scheme/halves logic) + differential correspondence on fresh keys in all PEM forms",
   "DESIGN.md §5 C19"),
  "C20": (True,
-  "PARTIAL. Lean: the file-naming contract between producers and the verifier's loader (a link written for a step with a key id is found under the id's 8-character prefix, which prefixes the signature's key id), formats tied to the source by regenerated facts; the CLI verdict is the pipeline model's verdict on the files. Every run builds /repo's binary, carries out 1-3 step chains through `run` / `record start|stop` / `sign` (with and without --use-dsse and metadata directory), checks `key id` and `sign --verify`, applies one tampering (product, link, layout, wrong key, dropped/renamed link, extra file) and compares the exit status of `in-toto verify` with in-process library verification AND with the model on the captured files; `match-products` output/exit status vs the model.",
-  COMMON_NOTE + "Correspondence only: cobra flag wiring, process exit codes, certificate/SPIFFE flags (not exercised).",
+  "PARTIAL. Lean: the file-naming contract between producers and the verifier's loader (a link written for a step with a key id is found under the id's 8-character prefix, which prefixes the signature's key id), formats tied to the source by regenerated facts; the CLI verdict is the pipeline model's verdict on the files. Every run builds /repo's binary, carries out 1-3 step chains through `run` / `record start|stop` / `sign` (with and without --use-dsse and metadata directory), checks `key id` and `sign --verify`, applies one tampering (product, link, layout, wrong key, dropped/renamed link, extra file) and compares the exit status of `in-toto verify` with in-process library verification AND with the model on the captured files; `match-products` output/exit status vs the model. A third of the Metablock steps are certificate-authorized (--key + --cert, root / layout-intermediate / caller-intermediate chains, verify -i), and an untampered history must be ACCEPTED.",
+  COMMON_NOTE + "Correspondence only: cobra flag wiring, process exit codes, SPIFFE flags (not exercised).",
   "Lean 4 proof (naming contract) + CLI histories vs library vs model",
   "DESIGN.md §5 C20"),
 }
